@@ -460,6 +460,10 @@ def cli_outputs(c, tree, extra):
     res["json"] = run(["--json"])
     res["json_stats"] = run(["--json", "--stats"])
     res["json_q"] = run(["--json", "-q"])
+    # the same searches with several threads (search_parallel folds the per-file statistics itself)
+    par = [a for a in base if a not in ("--sort", "path")] + ["-j3"]
+    res["std_stats_par"] = pl.rg(par + ["--no-heading", "-n", "--stats"] + pat + names, tree.dir)
+    res["count_stats_par"] = pl.rg(par + ["-c", "--include-zero", "--stats"] + pat + names, tree.dir)
     # mode normalisation (hiargs.rs): -v --count-matches => --count ; -o --count => --count-matches
     res["norm_vcm"] = run(["-v", "--count-matches", "--include-zero"])
     res["norm_vc"] = run(["-v", "-c", "--include-zero"])
@@ -529,6 +533,12 @@ def check_cli(ctx, c, lib_outs):
             v("--stats 'bytes printed' is not the number of bytes printed", total=tot[4], printed=len(body))
         if c["mx"] is None and tot[5] != sum(len(d) for _, d in c["files"]):
             v("--stats 'bytes searched' is not the total size of the files searched", total=tot[5])
+    # -jN: the totals do not depend on the number of threads (the search output is a permutation, same length)
+    for name in ("std_stats", "count_stats"):
+        _, t1 = split_stats(r[name][1])
+        _, tp = split_stats(r[name + "_par"][1])
+        if t1 is not None and tp != t1:
+            v("--stats totals with -j3 differ from the single-threaded totals (mode %s)" % name, single=t1, parallel=tp)
     body, tot = split_stats(r["count_stats"][1])
     if tot is not None:
         per = [lib_outs["count_stats"][1][i][3][0] for i in range(nfiles)]
